@@ -12,6 +12,8 @@ var Plans = map[string][]PlanItem{
 	"C06": {{Scen: "stored", Quick: 5000, Thorough: 300000}},
 	"C07": {{Scen: "docvalues", Quick: 3000, Thorough: 200000}},
 	"C08": {{Scen: "dictionary", Quick: 8000, Thorough: 500000}},
+	"C18": {{Scen: "dmt", Quick: 8000, Thorough: 500000}},
+	"C13": {{Scen: "reuse", Quick: 8000, Thorough: 500000}},
 	"C11": {{Scen: "world", Quick: 3000, Thorough: 150000}},
 	"C16": {{Scen: "world", Quick: 4000, Thorough: 250000}},
 }
